@@ -128,7 +128,31 @@ def call(f, case, cachedir):
     return v, recorded(rec)
 
 
-def crash_points(n, maxpoints, pick):
+def write_boundaries(B):
+    """offsets at which pickle hands over from one write() call to the next while dumping this entry (frames, out-of-band buffers): a writer killed
+    between two writes leaves exactly such a prefix. Found by re-dumping the loaded entry into a recording file object; [] if that does not reproduce B."""
+    class Recorder:
+        def __init__(self): self.chunks = []
+        def write(self, b): self.chunks.append(bytes(b)); return len(b)
+    try:
+        r = Recorder()
+        pickle.dump(pickle.loads(B), r)
+        if b''.join(r.chunks) != B: return []
+        out = []; o = 0
+        for c in r.chunks[:-1]:
+            o += len(c); out.append(o)
+        return out
+    except Exception:
+        return []
+
+
+def crash_points(n, maxpoints, pick, must=()):
+    pts, exhaustive = _crash_points(n, maxpoints, pick)
+    extra = {q for b in must for q in (b - 1, b, b + 1) if 0 <= q <= n}
+    return sorted(set(pts) | extra), exhaustive
+
+
+def _crash_points(n, maxpoints, pick):
     if n <= 4096 and n + 1 <= maxpoints:
         return list(range(n + 1)), True
     pts = set(range(0, min(n, 512) + 1)) | set(range(max(0, n - 512), n + 1))
@@ -167,7 +191,9 @@ def check_prefix(case, rec):
             v, l = call(f, dict(case, spelling=sp), d)
             if COUNTER['n'] != 0 or not same(v, want) or l != wantlog:
                 raise Violation('cache-miss-or-wrong-hit', f'spelling {sp}: executions={COUNTER["n"]} value equal={same(v, want)} log equal={l == wantlog} ({l} vs {wantlog})', where='hit:' + sp)
-        pts, exhaustive = crash_points(len(B), case['maxpoints'], case['pick'])
+        wb = write_boundaries(B)
+        pts, exhaustive = crash_points(len(B), case['maxpoints'], case['pick'], must=wb)
+        if wb: rec.count('write_boundaries_cut', len(wb))
         inner = 0
         for k in pts:
             with open(path, 'wb') as fh:
